@@ -13,6 +13,10 @@ What is replaced is the environment only:
   * the producers -> real files with chosen mtimes in the producer's working directory, so that the real
     Job.producersHaveOutputSinceDate / Engine.canConsume answer from the modelled output timeline.
 
+Filesystem faults: a schedule entry {a: check, s: 1} makes the k-th listing of the (output-less) producer directory
+by canConsume() fail: the directory is renamed away around the REAL WorkingDirectory._listdir, so the real os.listdir
+raises OSError and the real code converts it (only for producers whose earlier output check does not list the directory).
+
 Time: the monitor's instants are whole seconds; environment events carry stamps in half seconds (odd stamp 2t+1 =
 while the monitor is blocked after instant t, even stamp 2t = in the WINDOW at instant t), see spec/Repeating.tla.
 """
